@@ -708,7 +708,7 @@ func genCall(r *rand.Rand) call {
 		// echo: option loop, words without backslashes (echo -e goes through expand.Format)
 		var a []string
 		for i, n := 0, r.IntN(4); i < n; i++ {
-			a = append(a, hx.Pick(r, []string{"-n", "-e", "-E", "-n", "-x", "-ne", "--", "-", ""}))
+			a = append(a, hx.Pick(r, []string{"-n", "-e", "-E", "-n", "-x", "-ne", "--", "-", "", "-nE", "-en", "-nx", "-eEn", "-n-", "-nn", "-xe"}))
 		}
 		a = append(a, genWords(r, 3)...)
 		return mk("echo", a...)
